@@ -1,5 +1,152 @@
+import NA.Gen.NewPolicy
 import NA.Core.IOUtil
-/-! Driver stub for C19 (not built yet): echoes its input. -/
+/-! Driver for C19: replays one scenario per input line on the model of `newpolicy.sh`
+(the regenerated program `NA.Gen.NewPolicy.prog` under the semantics of `NA.Model.NewPolicy`).
+
+Input : `<sysEmail 0|1>|ev;ev;…`
+  ev = `c:<g|b>:<n|->:<0|1>`   a user pushes a good/bad commit, optionally rewriting POLICY to pN, author with/without e-mail
+     | `r:<plan>`              one invocation of newpolicy.sh; plan = `k=act,k=act,…` (may be empty):
+                               before the k-th main-shell command of the run do act:
+                               `K` kill the run, `cg`/`cb` a user pushes a good/bad commit,
+                               `n` a second invocation runs to its end, `nK<j>` … and is killed before its j-th command
+Output: per event `<run info> <state>` joined by `;`
+  run info = `exit=<n|killed> trace=<line.line.…> nested=[…|…]`   (only for `r`)
+  state    = `cur=<n|-> next=<-|cloned/built/headpol/headIsRemote> failed=<0|1> dirs=<n:built:headpol:headIsRemote:nested,…> remote=<good/pol/kind/email> lock=<0|1>`
+-/
+namespace NA.Drv.C19
+open NA.C19 NA.IOUtil
+
+def prog : Prog := NA.Gen.NewPolicy.prog
+
+inductive Act
+  | kill
+  | commit (good : Bool)
+  | nested (killAt : Option Nat)
+  deriving Repr
+
+structure RunInfo where
+  exit : Option Nat := none
+  trace : List Nat := []
+  nested : List RunInfo := []
+  deriving Inhabited
+
+def b2s (b : Bool) : String := if b then "1" else "0"
+def optNat : Option Nat → String
+  | some n => toString n
+  | none => "-"
+
+def showKind : Kind → String
+  | .user => "user" | .policy => "policy" | .revert => "revert" | .merge => "merge"
+
+def showDirBody (g : G) (d : Dir) : String :=
+  let hp := match d.head with
+    | some h => optNat (commitAt g.store h).pol
+    | none => "-"
+  s!"{b2s (d.built)}:{hp}:{b2s (d.head == some g.remote)}"
+
+def insertSorted (x : Nat × Dir) : List (Nat × Dir) → List (Nat × Dir)
+  | [] => [x]
+  | y :: ys => if x.1 ≤ y.1 then x :: y :: ys else y :: insertSorted x ys
+
+def showState (s : State) : String :=
+  let g := s.g
+  let nx := match g.next with
+    | none => "-"
+    | some d =>
+      let hp := match d.head with
+        | some h => optNat (commitAt g.store h).pol
+        | none => "-"
+      s!"{b2s d.head.isSome}/{b2s (d.built)}/{hp}/{b2s (d.head == some g.remote)}"
+  let ds := (g.dirs.foldr insertSorted []).map fun (n, d) => s!"{n}:{showDirBody g d}:{b2s d.nested}"
+  let r := commitAt g.store g.remote
+  s!"cur={optNat g.current} next={nx} failed={b2s g.failed} dirs={joinComma ds} " ++
+  s!"remote={b2s r.good}/{optNat r.pol}/{showKind r.kind}/{b2s r.email} lock={b2s g.lockFile}"
+
+partial def showRun (r : RunInfo) : String :=
+  let ex := match r.exit with
+    | some n => toString n
+    | none => "killed"
+  let tr := ".".intercalate (r.trace.map toString)
+  let ns := "|".intercalate (r.nested.map showRun)
+  s!"exit={ex} trace={tr} nested=[{ns}]"
+
+/-- Run process `pid` under a plan.  `n` = number of visible commands started so far. -/
+partial def runPlan (s : State) (pid : Nat) (plan : List (Nat × Act)) (n : Nat) (info : RunInfo) (fuel : Nat) :
+    State × RunInfo :=
+  if fuel = 0 then (s, info) else
+  match findProc s.procs pid with
+  | none => (s, info)
+  | some p =>
+    if !p.alive then (s, { info with exit := p.exit, trace := info.trace.reverse, nested := info.nested.reverse }) else
+    match instrAt prog p.pc with
+    | none => runPlan (step prog s (.step pid)) pid plan n info (fuel - 1)
+    | some i =>
+      if !i.vis then runPlan (step prog s (.step pid)) pid plan n info (fuel - 1) else
+      let n := n + 1
+      let info := { info with trace := i.line :: info.trace }
+      -- actions scheduled before the n-th visible command
+      let acts := plan.filter (·.1 == n)
+      let rec doActs (s : State) (info : RunInfo) : List (Nat × Act) → State × RunInfo × Bool
+        | [] => (s, info, false)
+        | (_, .kill) :: _ => (step prog s (.kill pid), info, true)
+        | (_, .commit g) :: rest => doActs (step prog s (.commit g none true)) info rest
+        | (_, .nested k) :: rest =>
+          let q := s.npid
+          let s1 := step prog s .spawn
+          let plan2 := match k with
+            | some j => [(j, Act.kill)]
+            | none => []
+          let (s2, inf2) := runPlan s1 q plan2 0 {} 5000
+          doActs s2 { info with nested := inf2 :: info.nested } rest
+      let (s, info, killed) := doActs s info acts
+      if killed then (s, { info with exit := none, trace := info.trace.reverse, nested := info.nested.reverse })
+      else runPlan (step prog s (.step pid)) pid plan n info (fuel - 1)
+
+def parseAct (a : String) : Option Act :=
+  if a == "K" then some .kill
+  else if a == "cg" then some (.commit true)
+  else if a == "cb" then some (.commit false)
+  else if a == "n" then some (.nested none)
+  else if a.startsWith "nK" then (a.drop 2).toNat?.map fun j => .nested (some j)
+  else none
+
+def parsePlan (s : String) : Option (List (Nat × Act)) :=
+  (splitComma s).mapM fun item =>
+    match item.splitOn "=" with
+    | [k, a] => do
+      let k ← k.toNat?
+      let a ← parseAct a
+      pure (k, a)
+    | _ => none
+
+def applyEvent (s : State) (ev : String) : Option (State × String) :=
+  match ev.splitOn ":" with
+  | ["c", gb, pol, em] => do
+    let good ← if gb == "g" then some true else if gb == "b" then some false else none
+    let pol ← if pol == "-" then some none else pol.toNat?.map some
+    let s' := step prog s (.commit good pol (em == "1"))
+    pure (s', showState s')
+  | ["r", plan] => do
+    let plan ← parsePlan plan
+    let pid := s.npid
+    let (s', info) := runPlan (step prog s .spawn) pid plan 0 {} 5000
+    pure (s', showRun info ++ " " ++ showState s')
+  | _ => none
+
+def answer (line : String) : String :=
+  match line.splitOn "|" with
+  | [se, evs] =>
+    let rec go (s : State) (acc : List String) : List String → String
+      | [] => ";".intercalate acc.reverse
+      | e :: rest =>
+        match applyEvent s e with
+        | some (s', out) => go s' (out :: acc) rest
+        | none => "bad-input:" ++ e
+    go (init (se == "1")) [] (if evs.isEmpty then [] else evs.splitOn ";")
+  | _ => "bad-input"
+
+end NA.Drv.C19
+
 def main (_ : List String) : IO UInt32 := do
-  NA.IOUtil.eachLine id
+  NA.IOUtil.eachLine NA.Drv.C19.answer
   return 0
